@@ -168,6 +168,27 @@ def rule_chain(check):
         ctor = cs.bindings()[bl[0]]["origin"][1] if bl else None
         ok_new = ctor is not None and hir.is_call(hir.peel(ctor)) and hir.callee_name(hir.peel(ctor)) == "new" and (hir.peel(hir.call_args(hir.peel(ctor))[0]).get("res", {}).get("ctor_path") or "").split("::")[-1] == "None"
         check.expect(ok_new, R, R + "/builder-new", hir.loc(n), "SourceMapBuilder::new(None)", "the chained map builder is not created with SourceMapBuilder::new(None)")
+        # every token of the rewrite map that resolves in the original map is re-emitted: inside the
+        # token loop, add_raw is conditional on nothing but `lookup_token(..)` being Some
+        inner = []
+        seen_loop = False
+        for c in cs.conds_at(n):
+            if c["t"] == "loop":
+                seen_loop = True
+                continue
+            if not seen_loop or c["t"] == "closure":
+                continue
+            if c["t"] == "pat":
+                v = str(hir.pat_variant(c["pat"])).split("::")[-1]
+                so = pv.origins(cs, c["scrut"]) if c.get("scrut") else set()
+                from_lookup = any(r[0] == "call" and r[1].split("::")[-1] == "lookup_token" for r, p in so)
+                iter_next = any(r[0] == "call" and r[1].split("::")[-1] in ("next", "into_iter") for r, p in so) or "Iterator::next" in hir.describe(c["scrut"])
+                if iter_next:
+                    continue
+                inner.append("lookup-some" if (v == "Some" and c["v"] and from_lookup) else "pattern " + hir.cond_str(c))
+            else:
+                inner.append(hir.cond_str(c))
+        check.expect(seen_loop and inner == ["lookup-some"], R, R + "/every-token", hir.loc(n), "inside the loop add_raw depends only on lookup_token(..) being Some", "some resolvable tokens of the rewrite map are not re-emitted: add_raw is additionally conditional on %s" % [x for x in inner if x != "lookup-some"])
         tk = [x for x in hir.calls_in(cs.body, name="tokens")]
         check.expect(len(tk) == 1, R, R + "/all-tokens", hir.loc(n), "iterates all tokens of the rewrite map", "does not iterate tokens() of the rewrite map")
 
